@@ -112,6 +112,12 @@ pub trait Space {
     fn chunk(&self) -> u64 {
         2000
     }
+    /// Range of cases to re-run in a fresh worker to confirm a violation at `idx`.  Spaces whose
+    /// subject may carry hidden state from earlier cases (which would itself break the property)
+    /// return the whole prefix, so that the confirmation sees the same history.
+    fn confirm_range(&self, idx: u64) -> (u64, u64) {
+        (idx, idx + 1)
+    }
     /// How many abnormal ends (timeouts, worker deaths) are tolerated before exploration stops.
     fn abnormal_cap(&self) -> u64 {
         48
@@ -461,8 +467,10 @@ pub fn explore(
     let mut chunks: Vec<(u64, u64)> = vec![];
     if let Some(list) = only {
         for i in list {
-            chunks.push((i, i + 1));
+            chunks.push(space.confirm_range(i));
         }
+        chunks.sort();
+        chunks.dedup();
     } else {
         let heavy = space.heavy();
         let is_heavy = |i: u64| heavy.iter().any(|(a, b)| i >= *a && i < *b);
